@@ -10,11 +10,14 @@ use crate::vals;
 
 pub const RULE: &str = "case = one logical input (routine, DIMS, mask, value, a, b) executed twice: run 1 with \
 guard-flush placement, poison byte 0xA5 around the slices and result pre-filled with 0xC3..; then an unrelated \
-call of the same routine on other data in the same arenas (interleaving; for const-dimension entry points the call goes \
+call of the same routine on other data (every fourth time: all zeros) in the same arenas (interleaving; for const-dimension entry points the call goes \
 to the same entry point instantiated at another DIMS); run 2 with different byte alignments \
 of every slice (derived from the case hash), poison byte 0x3C and result pre-filled with 0x5A... The two outcomes \
 (value / whole result vector / panic) must be bit-identical (floats included; same backend), which also proves \
-every result element is overwritten; inputs must be unchanged bit for bit; canaries intact. Every routine (all \
+every result element is overwritten; inputs must be unchanged bit for bit; canaries intact; every call must return \
+with the floating-point control word (x86-64 MXCSR rounding / flush-to-zero / denormals-are-zero / mask bits) it was \
+entered with - if not, the routine is re-run on rounding- and subnormal-sensitive data under both control words to show \
+the dependence of a later result on the earlier call. Every routine (all \
 per-backend exports, xconst forms, safe functions under each dispatcher mask), lengths from the smart subset, \
 NaN-free values (mixed boundary/random), non-zero integer divisors. distinct = hash set over (routine, DIMS, \
 mask, value, a, b); non-trivial = length > 0.";
@@ -57,6 +60,77 @@ fn out_bits_equal<T: Elem>(x: &Out<T>, y: &Out<T>) -> Option<String> {
     }
 }
 
+/// A call came back with other floating-point control bits than it was entered with. That is state which outlives the
+/// call; show that it reaches a result: the same routine on data that is sensitive to the rounding mode and to the
+/// treatment of subnormals, once under the control word of a fresh thread and once under the one the call left behind.
+fn leaked_fp_env<T: Elem>(c: &VecCall<T>, ar: &mut Arenas, which: &str, before: u32, after: u32) -> Verdict {
+    let n = match c.r.dims {
+        Some(d) => d,
+        None => c.a.len().max(8),
+    };
+    let mut probe = c.clone();
+    // the routine may set the mode itself on entry (then it is blind to what an earlier call left behind): prefer the
+    // plain sum of the same element type
+    if let Some(r) = T::all_routines()
+        .into_iter()
+        .find(|r| r.op == crate::elem::Op::Sum && r.dims.is_none() && !r.safe)
+    {
+        probe.r = r;
+    }
+    let n = match probe.r.dims {
+        Some(d) => d,
+        None => n,
+    };
+    let tiny = if T::BITS == 32 { 2f64.powi(-30) } else { 2f64.powi(-60) };
+    // two data sets: all subnormal (flush-to-zero / denormals-are-zero), and 1, 2^-k, 1/3 (rounding direction)
+    let mut differs: Option<String> = None;
+    for set in 0..2 {
+        probe.a = (0..n)
+            .map(|i| match (set, i % 3) {
+                (0, _) => T::from_bits(3 + i as u64), // subnormal
+                (_, 0) => T::one(),
+                (_, 1) => T::from_f64(tiny),
+                _ => T::from_f64(1.0 / 3.0),
+            })
+            .collect();
+        probe.b = if probe.uses_b() {
+            (0..n).map(|i| if set == 0 { T::one() } else { T::from_f64(3.0 + i as f64) }).collect()
+        } else {
+            Vec::new()
+        };
+        probe.value = T::from_f64(3.0);
+        probe.res_len = if probe.uses_result() { n } else { 0 };
+        let o1 = probe.exec(ar);
+        crate::kern::set_fp_control(after);
+        let o2 = probe.exec(ar);
+        crate::kern::set_fp_control(before);
+        if let Some(d) = out_bits_equal(&o1.out, &o2.out) {
+            differs = Some(format!("{} on {} gives {d}", probe.r.name, if set == 0 { "subnormal data" } else { "(1, 2^-k, 1/3, ...)" }));
+            break;
+        }
+    }
+    let dep = if T::FLOAT {
+        match differs {
+            Some(d) => format!("; a later call then returns other bits than before it: {d}"),
+            None => "; (the sensitivity probe returned the same bits under both control words)".into(),
+        }
+    } else {
+        String::new()
+    };
+    Some(Fail {
+        kind: "hidden_state",
+        class: "fp_env",
+        expected: format!(
+            "the call leaves the floating-point control word as it found it: {}",
+            crate::kern::show_fp_control(before)
+        ),
+        actual: format!("after {which}: {}{dep}", crate::kern::show_fp_control(after)),
+        note: "processor state that outlives the call: every later floating-point result of the thread is computed under it, \
+               so results depend on earlier calls"
+            .into(),
+    })
+}
+
 fn check<T: Elem>(c: &VecCall<T>, ar: &mut Arenas, sib: &Option<crate::elem::Routine<T>>) -> Verdict {
     let h = c.hash();
     let align = std::mem::align_of::<T>() as u64;
@@ -68,6 +142,9 @@ fn check<T: Elem>(c: &VecCall<T>, ar: &mut Arenas, sib: &Option<crate::elem::Rou
     c1.poison = 0xA5;
     c1.prefill = 0xC3C3_C3C3_C3C3_C3C3;
     let e1 = c1.exec(ar);
+    if let Some((b, a)) = e1.fp_env {
+        return leaked_fp_env(c, ar, "this call", b, a);
+    }
     // interleaved unrelated call (same routine, other data, other length)
     let mut noise = c.clone();
     // const-dimension forms: the interleaved call goes to the *same entry point at another DIMS* when the harness has
@@ -84,6 +161,10 @@ fn check<T: Elem>(c: &VecCall<T>, ar: &mut Arenas, sib: &Option<crate::elem::Rou
         .map(|i| T::from_bits(h.rotate_left(i as u32 % 64) | 1))
         .map(|x: T| if x.is_nan() { T::one() } else { x })
         .collect();
+    // every fourth interleaved call runs on all-zero data (zero norms, zero sums: the early-exit paths of a routine)
+    if (h >> 40) % 4 == 0 {
+        noise.a = vec![T::zero(); nl];
+    }
     noise.b = if c.uses_b() {
         noise.a.iter().rev().cloned().collect()
     } else {
@@ -91,7 +172,16 @@ fn check<T: Elem>(c: &VecCall<T>, ar: &mut Arenas, sib: &Option<crate::elem::Rou
     };
     noise.res_len = if c.uses_result() { nl } else { 0 };
     noise.place = [Place::Start, Place::AlignHi(k(3)), Place::AlignLo(k(9))];
-    let _ = noise.exec(ar);
+    let en = noise.exec(ar);
+    if let Some((b, a)) = en.fp_env {
+        return leaked_fp_env(
+            c,
+            ar,
+            &format!("the interleaved call {} on data derived from the case hash", noise.call()),
+            b,
+            a,
+        );
+    }
     // run 2
     let mut c2 = c.clone();
     c2.place = [Place::AlignHi(k(7)), Place::AlignLo(k(17)), Place::AlignHi(k(27))];
@@ -101,6 +191,9 @@ fn check<T: Elem>(c: &VecCall<T>, ar: &mut Arenas, sib: &Option<crate::elem::Rou
     c2.poison = 0x3C;
     c2.prefill = 0x5A5A_5A5A_5A5A_5A5A;
     let e2 = c2.exec(ar);
+    if let Some((b, a)) = e2.fp_env {
+        return leaked_fp_env(c, ar, "this call", b, a);
+    }
     for e in [&e1, &e2] {
         if let Some(d) = &e.canary {
             return Some(Fail {
